@@ -81,19 +81,19 @@ Section LinWhole.
 
   (** ---- enrichment rate: all mapped reactions together ------------------------------------------------ *)
   Theorem enrichment_rate_model :
-    forall (lv : label_vars) (rms : list (brxn * list Z)) (envI envL : lname -> R)
+    forall (rk : repl_kind) (lv : label_vars) (rms : list (brxn * list Z)) (envI envL : lname -> R)
            (isos : list (N * list lname)) (irs lrs : list (list lrxn)),
       Forall (fun rm =>
                 let r := fst rm in
                 let bs := subs_of (r_stoich r) in let bp := prods_of (r_stoich r) in
                 exists (extra : list N) (mun : list nat),
                   r_fn r = FProd /\ Permutation (r_args r) (bs ++ extra) /\ NoDup (map fst (r_stoich r)) /\ NoDup bs /\
-                  (forall a, In a extra -> ~ In a bs /\ ~ In a bp /\ nlab lv a = O) /\
+                  (forall a, In a extra -> ~ In a bs /\ ~ In a bp /\ nlab lv a = O /\ (rk = ReplPositional -> getN a lv = None)) /\
                   (forall c, In c (bs ++ bp) -> O < nlab lv c) /\
                   snd rm = map Z.of_nat mun /\
                   Permutation mun (seq O (Nat.max (total (labels_per lv bs)) (total (labels_per lv bp)))) /\
                   envL (LPlain (r_name r)) = prod (map (Benv lv envI) (r_args r))) rms ->
-      collect (map (fun rm => create_iso_rxns true lv (fst rm) (snd rm)) rms) = Ok irs ->
+      collect (map (fun rm => create_iso_rxns true rk lv (fst rm) (snd rm)) rms) = Ok irs ->
       lin_isotopomers lv = Ok isos ->
       collect (map (fun rm => lin_rxns DirDocumented isos (fst rm) (snd rm)) rms) = Ok lrs ->
       (forall c, O < nlab lv c -> envL (LPlain c) = Benv lv envI c) ->
@@ -104,19 +104,19 @@ Section LinWhole.
         = rinv (envL (LPlain c))
           * sum (map (fun bits => bitR bits i * Deriv envI (concat irs) (iso_name c bits)) (all_patterns (nlab lv c))).
   Proof.
-    intros lv rms envI envL isos irs lrs Hwf Hi Hisos Hl Hpool Hmarg Hext c i Hci.
+    intros rk lv rms envI envL isos irs lrs Hwf Hi Hisos Hl Hpool Hmarg Hext c i Hci.
     revert irs lrs Hi Hl. induction Hwf as [|rm rms Hrm _ IH]; intros irs lrs Hi Hl; cbn [map collect] in Hi, Hl.
     - inversion Hi; subst irs. inversion Hl; subst lrs. cbn [concat].
       rewrite (s_ext _ _ (fun _ => 0)), s_zero by (intros; cbn; ring). cbn. ring.
-    - destruct (create_iso_rxns true lv (fst rm) (snd rm)) as [ir|] eqn:Hir; [|discriminate].
-      destruct (collect (map (fun rm0 => create_iso_rxns true lv (fst rm0) (snd rm0)) rms)) as [irs'|] eqn:Hi'; [|discriminate].
+    - destruct (create_iso_rxns true rk lv (fst rm) (snd rm)) as [ir|] eqn:Hir; [|discriminate].
+      destruct (collect (map (fun rm0 => create_iso_rxns true rk lv (fst rm0) (snd rm0)) rms)) as [irs'|] eqn:Hi'; [|discriminate].
       destruct (lin_rxns DirDocumented isos (fst rm) (snd rm)) as [lr|] eqn:Hlr; [|discriminate].
       destruct (collect (map (fun rm0 => lin_rxns DirDocumented isos (fst rm0) (snd rm0)) rms)) as [lrs'|] eqn:Hl'; [|discriminate].
       inversion Hi; subst irs. inversion Hl; subst lrs. cbn [concat]. rewrite d_app, (IH irs' lrs' eq_refl eq_refl).
       cbv zeta in Hrm. destruct Hrm as [extra [mun [Hfn [Hargs [Hnd [Hndb [Hextra [Hlab [Hmap [Hperm Hflux]]]]]]]]]].
       rewrite Hmap in Hir, Hlr.
       rewrite (enrichment_rate_core R rO rI radd rmul rsub ropp rinv ofZ Rth ofZ_0 ofZ_1 ofZ_add ofZ_opp
-                 lv (fst rm) mun extra envI envL Hfn Hargs Hnd Hndb Hextra Hperm
+                 rk lv (fst rm) mun extra envI envL Hfn Hargs Hnd Hndb Hextra Hperm
                  (fun c' Hc' => Hpool c' (Hlab c' (in_or_app _ _ c' (or_introl Hc'))))
                  Hflux
                  (fun c' j _ Hj => Hmarg c' j Hj)
@@ -139,19 +139,19 @@ Section LinWhole.
 
   (** the full C16 statement: both forms together *)
   Theorem enrichment_rate_steady :
-    forall (lv : label_vars) (rms : list (brxn * list Z)) (envI envL : lname -> R)
+    forall (rk : repl_kind) (lv : label_vars) (rms : list (brxn * list Z)) (envI envL : lname -> R)
            (isos : list (N * list lname)) (irs lrs : list (list lrxn)),
       Forall (fun rm =>
                 let r := fst rm in
                 let bs := subs_of (r_stoich r) in let bp := prods_of (r_stoich r) in
                 exists (extra : list N) (mun : list nat),
                   r_fn r = FProd /\ Permutation (r_args r) (bs ++ extra) /\ NoDup (map fst (r_stoich r)) /\ NoDup bs /\
-                  (forall a, In a extra -> ~ In a bs /\ ~ In a bp /\ nlab lv a = O) /\
+                  (forall a, In a extra -> ~ In a bs /\ ~ In a bp /\ nlab lv a = O /\ (rk = ReplPositional -> getN a lv = None)) /\
                   (forall c, In c (bs ++ bp) -> O < nlab lv c) /\
                   snd rm = map Z.of_nat mun /\
                   Permutation mun (seq O (Nat.max (total (labels_per lv bs)) (total (labels_per lv bp)))) /\
                   envL (LPlain (r_name r)) = prod (map (Benv lv envI) (r_args r))) rms ->
-      collect (map (fun rm => create_iso_rxns true lv (fst rm) (snd rm)) rms) = Ok irs ->
+      collect (map (fun rm => create_iso_rxns true rk lv (fst rm) (snd rm)) rms) = Ok irs ->
       lin_isotopomers lv = Ok isos ->
       collect (map (fun rm => lin_rxns DirDocumented isos (fst rm) (snd rm)) rms) = Ok lrs ->
       (forall c, O < nlab lv c -> envL (LPlain c) = Benv lv envI c) ->
@@ -165,8 +165,8 @@ Section LinWhole.
         Deriv envL (concat lrs) (LPos c (Z.of_nat i)) = rinv P * dm
         /\ (P * rinv P = 1 -> dP = 0 -> Deriv envL (concat lrs) (LPos c (Z.of_nat i)) * (P * P) = dm * P - m * dP).
   Proof.
-    intros lv rms envI envL isos irs lrs Hwf Hi Hisos Hl Hpool Hmarg Hext c i Hci P m dm dP.
-    pose proof (enrichment_rate_model lv rms envI envL isos irs lrs Hwf Hi Hisos Hl Hpool Hmarg Hext c i Hci) as H.
+    intros rk lv rms envI envL isos irs lrs Hwf Hi Hisos Hl Hpool Hmarg Hext c i Hci P m dm dP.
+    pose proof (enrichment_rate_model rk lv rms envI envL isos irs lrs Hwf Hi Hisos Hl Hpool Hmarg Hext c i Hci) as H.
     split; [exact H|]. intros HP HdP.
     exact (enrichment_rate_quotient P (rinv P) _ dm dP m HP H HdP).
   Qed.
@@ -299,15 +299,15 @@ Definition rf_envL : lname -> Z :=
 
 Definition derivZ' := deriv Z 0%Z 1%Z Z.add Z.mul Z.opp idZ idZ.
 
-Theorem direction_refuted_inverse :
+Theorem direction_refuted_inverse_dict :
   exists (lv : label_vars) (r : brxn) (extra : list N) (mun : list nat) (envI envL : lname -> Z)
          (isos : list (N * list lname)) (irxns lrxns : list lrxn) (c : N) (i : nat),
     let bs := subs_of (r_stoich r) in let bp := prods_of (r_stoich r) in
     r_fn r = FProd /\ Permutation (r_args r) (bs ++ extra) /\ NoDup (map fst (r_stoich r)) /\ NoDup bs /\
-    (forall a, In a extra -> ~ In a bs /\ ~ In a bp /\ nlab lv a = 0) /\
+    (forall a, In a extra -> ~ In a bs /\ ~ In a bp /\ nlab lv a = 0 /\ (ReplDict = ReplPositional -> getN a lv = None)) /\
     (forall c, In c (bs ++ bp) -> 0 < nlab lv c) /\
     Permutation mun (seq 0 (Nat.max (total (labels_per lv bs)) (total (labels_per lv bp)))) /\
-    create_iso_rxns true lv r (map Z.of_nat mun) = Ok irxns /\
+    create_iso_rxns true ReplDict lv r (map Z.of_nat mun) = Ok irxns /\
     lin_isotopomers lv = Ok isos /\
     lin_rxns DirInverse isos r (map Z.of_nat mun) = Ok lrxns /\
     (forall c, In c (bs ++ bp) -> envL (LPlain c) = benv Z 0%Z Z.add lv envI c /\ (envL (LPlain c) * idZ (envL (LPlain c)) = 1)%Z) /\
@@ -320,7 +320,7 @@ Theorem direction_refuted_inverse :
     (idZ (envL (LPlain c))
      * sumR Z 0%Z Z.add (map (fun bits => bit Z 0%Z 1%Z bits i * derivZ' envI irxns (iso_name c bits)) (all_patterns (nlab lv c))))%Z = 1%Z.
 Proof.
-  destruct (create_iso_rxns true rf_lv rf_rxn (map Z.of_nat rf_map)) as [irxns|] eqn:Hi; [|vm_compute in Hi; discriminate].
+  destruct (create_iso_rxns true ReplDict rf_lv rf_rxn (map Z.of_nat rf_map)) as [irxns|] eqn:Hi; [|vm_compute in Hi; discriminate].
   destruct (lin_isotopomers rf_lv) as [isos|] eqn:Hs; [|vm_compute in Hs; discriminate].
   destruct (lin_rxns DirInverse isos rf_rxn (map Z.of_nat rf_map)) as [lrxns|] eqn:Hl;
     [|vm_compute in Hs; inversion Hs; subst isos; vm_compute in Hl; discriminate].
@@ -332,9 +332,9 @@ Proof.
   repeat match goal with |- _ /\ _ => split end.
   - reflexivity.
   - vm_compute. apply Permutation_refl.
-  - vm_compute. repeat constructor; cbn; intuition discriminate.
-  - vm_compute. repeat constructor; cbn; intuition discriminate.
-  - intros a [<-|[]]. vm_compute. intuition discriminate.
+  - vm_compute. repeat constructor; cbn; intuition (try discriminate; try reflexivity).
+  - vm_compute. repeat constructor; cbn; intuition (try discriminate; try reflexivity).
+  - intros a [<-|[]]. vm_compute. intuition (try discriminate; try reflexivity).
   - intros c Hc. vm_compute in Hc. destruct Hc as [<-|[<-|[]]]; vm_compute; lia.
   - vm_compute. apply (Permutation_trans (l' := [1; 0; 2])).
     + apply perm_skip. apply perm_swap.
@@ -354,21 +354,157 @@ Proof.
   - vm_compute. reflexivity.
 Qed.
 
+Theorem direction_refuted_inverse_pos :
+  exists (lv : label_vars) (r : brxn) (extra : list N) (mun : list nat) (envI envL : lname -> Z)
+         (isos : list (N * list lname)) (irxns lrxns : list lrxn) (c : N) (i : nat),
+    let bs := subs_of (r_stoich r) in let bp := prods_of (r_stoich r) in
+    r_fn r = FProd /\ Permutation (r_args r) (bs ++ extra) /\ NoDup (map fst (r_stoich r)) /\ NoDup bs /\
+    (forall a, In a extra -> ~ In a bs /\ ~ In a bp /\ nlab lv a = 0 /\ (ReplPositional = ReplPositional -> getN a lv = None)) /\
+    (forall c, In c (bs ++ bp) -> 0 < nlab lv c) /\
+    Permutation mun (seq 0 (Nat.max (total (labels_per lv bs)) (total (labels_per lv bp)))) /\
+    create_iso_rxns true ReplPositional lv r (map Z.of_nat mun) = Ok irxns /\
+    lin_isotopomers lv = Ok isos /\
+    lin_rxns DirInverse isos r (map Z.of_nat mun) = Ok lrxns /\
+    (forall c, In c (bs ++ bp) -> envL (LPlain c) = benv Z 0%Z Z.add lv envI c /\ (envL (LPlain c) * idZ (envL (LPlain c)) = 1)%Z) /\
+    envL (LPlain (r_name r)) = prodR Z 1%Z Z.mul (map (benv Z 0%Z Z.add lv envI) (r_args r)) /\
+    (forall c j, In c bs -> j < nlab lv c ->
+       (envL (LPos c (Z.of_nat j)) * envL (LPlain c))%Z = marg Z 0%Z 1%Z Z.add Z.mul envI lv c j) /\
+    envL LExt = 1%Z /\
+    In c (bs ++ bp) /\ i < nlab lv c /\
+    derivZ' envL lrxns (LPos c (Z.of_nat i)) = 0%Z /\
+    (idZ (envL (LPlain c))
+     * sumR Z 0%Z Z.add (map (fun bits => bit Z 0%Z 1%Z bits i * derivZ' envI irxns (iso_name c bits)) (all_patterns (nlab lv c))))%Z = 1%Z.
+Proof.
+  destruct (create_iso_rxns true ReplPositional rf_lv rf_rxn (map Z.of_nat rf_map)) as [irxns|] eqn:Hi; [|vm_compute in Hi; discriminate].
+  destruct (lin_isotopomers rf_lv) as [isos|] eqn:Hs; [|vm_compute in Hs; discriminate].
+  destruct (lin_rxns DirInverse isos rf_rxn (map Z.of_nat rf_map)) as [lrxns|] eqn:Hl;
+    [|vm_compute in Hs; inversion Hs; subst isos; vm_compute in Hl; discriminate].
+  exists rf_lv, rf_rxn, [20%N], rf_map, rf_envI, rf_envL, isos, irxns, lrxns, 2%N, 2.
+  cbv zeta.
+  vm_compute in Hs. inversion Hs; subst isos. clear Hs.
+  vm_compute in Hi. inversion Hi; subst irxns. clear Hi.
+  vm_compute in Hl. inversion Hl; subst lrxns. clear Hl.
+  repeat match goal with |- _ /\ _ => split end.
+  - reflexivity.
+  - vm_compute. apply Permutation_refl.
+  - vm_compute. repeat constructor; cbn; intuition (try discriminate; try reflexivity).
+  - vm_compute. repeat constructor; cbn; intuition (try discriminate; try reflexivity).
+  - intros a [<-|[]]. vm_compute. intuition (try discriminate; try reflexivity).
+  - intros c Hc. vm_compute in Hc. destruct Hc as [<-|[<-|[]]]; vm_compute; lia.
+  - vm_compute. apply (Permutation_trans (l' := [1; 0; 2])).
+    + apply perm_skip. apply perm_swap.
+    + apply perm_swap.
+  - reflexivity.
+  - reflexivity.
+  - reflexivity.
+  - intros c Hc. vm_compute in Hc. destruct Hc as [<-|[<-|[]]]; vm_compute; split; reflexivity.
+  - vm_compute. reflexivity.
+  - intros c j Hc Hj. vm_compute in Hc. destruct Hc as [<-|[]].
+    change (nlab rf_lv 1%N) with 3 in Hj.
+    destruct j as [|[|[|j]]]; [vm_compute; reflexivity..|lia].
+  - reflexivity.
+  - vm_compute. right. left. reflexivity.
+  - vm_compute. lia.
+  - vm_compute. reflexivity.
+  - vm_compute. reflexivity.
+Qed.
+
+Theorem direction_refuted_inverse_unk :
+  exists (lv : label_vars) (r : brxn) (extra : list N) (mun : list nat) (envI envL : lname -> Z)
+         (isos : list (N * list lname)) (irxns lrxns : list lrxn) (c : N) (i : nat),
+    let bs := subs_of (r_stoich r) in let bp := prods_of (r_stoich r) in
+    r_fn r = FProd /\ Permutation (r_args r) (bs ++ extra) /\ NoDup (map fst (r_stoich r)) /\ NoDup bs /\
+    (forall a, In a extra -> ~ In a bs /\ ~ In a bp /\ nlab lv a = 0 /\ (ReplUnknown = ReplPositional -> getN a lv = None)) /\
+    (forall c, In c (bs ++ bp) -> 0 < nlab lv c) /\
+    Permutation mun (seq 0 (Nat.max (total (labels_per lv bs)) (total (labels_per lv bp)))) /\
+    create_iso_rxns true ReplUnknown lv r (map Z.of_nat mun) = Ok irxns /\
+    lin_isotopomers lv = Ok isos /\
+    lin_rxns DirInverse isos r (map Z.of_nat mun) = Ok lrxns /\
+    (forall c, In c (bs ++ bp) -> envL (LPlain c) = benv Z 0%Z Z.add lv envI c /\ (envL (LPlain c) * idZ (envL (LPlain c)) = 1)%Z) /\
+    envL (LPlain (r_name r)) = prodR Z 1%Z Z.mul (map (benv Z 0%Z Z.add lv envI) (r_args r)) /\
+    (forall c j, In c bs -> j < nlab lv c ->
+       (envL (LPos c (Z.of_nat j)) * envL (LPlain c))%Z = marg Z 0%Z 1%Z Z.add Z.mul envI lv c j) /\
+    envL LExt = 1%Z /\
+    In c (bs ++ bp) /\ i < nlab lv c /\
+    derivZ' envL lrxns (LPos c (Z.of_nat i)) = 0%Z /\
+    (idZ (envL (LPlain c))
+     * sumR Z 0%Z Z.add (map (fun bits => bit Z 0%Z 1%Z bits i * derivZ' envI irxns (iso_name c bits)) (all_patterns (nlab lv c))))%Z = 1%Z.
+Proof.
+  destruct (create_iso_rxns true ReplUnknown rf_lv rf_rxn (map Z.of_nat rf_map)) as [irxns|] eqn:Hi; [|vm_compute in Hi; discriminate].
+  destruct (lin_isotopomers rf_lv) as [isos|] eqn:Hs; [|vm_compute in Hs; discriminate].
+  destruct (lin_rxns DirInverse isos rf_rxn (map Z.of_nat rf_map)) as [lrxns|] eqn:Hl;
+    [|vm_compute in Hs; inversion Hs; subst isos; vm_compute in Hl; discriminate].
+  exists rf_lv, rf_rxn, [20%N], rf_map, rf_envI, rf_envL, isos, irxns, lrxns, 2%N, 2.
+  cbv zeta.
+  vm_compute in Hs. inversion Hs; subst isos. clear Hs.
+  vm_compute in Hi. inversion Hi; subst irxns. clear Hi.
+  vm_compute in Hl. inversion Hl; subst lrxns. clear Hl.
+  repeat match goal with |- _ /\ _ => split end.
+  - reflexivity.
+  - vm_compute. apply Permutation_refl.
+  - vm_compute. repeat constructor; cbn; intuition (try discriminate; try reflexivity).
+  - vm_compute. repeat constructor; cbn; intuition (try discriminate; try reflexivity).
+  - intros a [<-|[]]. vm_compute. intuition (try discriminate; try reflexivity).
+  - intros c Hc. vm_compute in Hc. destruct Hc as [<-|[<-|[]]]; vm_compute; lia.
+  - vm_compute. apply (Permutation_trans (l' := [1; 0; 2])).
+    + apply perm_skip. apply perm_swap.
+    + apply perm_swap.
+  - reflexivity.
+  - reflexivity.
+  - reflexivity.
+  - intros c Hc. vm_compute in Hc. destruct Hc as [<-|[<-|[]]]; vm_compute; split; reflexivity.
+  - vm_compute. reflexivity.
+  - intros c j Hc Hj. vm_compute in Hc. destruct Hc as [<-|[]].
+    change (nlab rf_lv 1%N) with 3 in Hj.
+    destruct j as [|[|[|j]]]; [vm_compute; reflexivity..|lia].
+  - reflexivity.
+  - vm_compute. right. left. reflexivity.
+  - vm_compute. lia.
+  - vm_compute. reflexivity.
+  - vm_compute. reflexivity.
+Qed.
+
+(** the form of the isotopomer mapper's argument renaming plays no role in the witness *)
+Theorem direction_refuted_inverse :
+  forall rk : repl_kind,
+  exists (lv : label_vars) (r : brxn) (extra : list N) (mun : list nat) (envI envL : lname -> Z)
+         (isos : list (N * list lname)) (irxns lrxns : list lrxn) (c : N) (i : nat),
+    let bs := subs_of (r_stoich r) in let bp := prods_of (r_stoich r) in
+    r_fn r = FProd /\ Permutation (r_args r) (bs ++ extra) /\ NoDup (map fst (r_stoich r)) /\ NoDup bs /\
+    (forall a, In a extra -> ~ In a bs /\ ~ In a bp /\ nlab lv a = 0 /\ (rk = ReplPositional -> getN a lv = None)) /\
+    (forall c, In c (bs ++ bp) -> 0 < nlab lv c) /\
+    Permutation mun (seq 0 (Nat.max (total (labels_per lv bs)) (total (labels_per lv bp)))) /\
+    create_iso_rxns true rk lv r (map Z.of_nat mun) = Ok irxns /\
+    lin_isotopomers lv = Ok isos /\
+    lin_rxns DirInverse isos r (map Z.of_nat mun) = Ok lrxns /\
+    (forall c, In c (bs ++ bp) -> envL (LPlain c) = benv Z 0%Z Z.add lv envI c /\ (envL (LPlain c) * idZ (envL (LPlain c)) = 1)%Z) /\
+    envL (LPlain (r_name r)) = prodR Z 1%Z Z.mul (map (benv Z 0%Z Z.add lv envI) (r_args r)) /\
+    (forall c j, In c bs -> j < nlab lv c ->
+       (envL (LPos c (Z.of_nat j)) * envL (LPlain c))%Z = marg Z 0%Z 1%Z Z.add Z.mul envI lv c j) /\
+    envL LExt = 1%Z /\
+    In c (bs ++ bp) /\ i < nlab lv c /\
+    derivZ' envL lrxns (LPos c (Z.of_nat i)) = 0%Z /\
+    (idZ (envL (LPlain c))
+     * sumR Z 0%Z Z.add (map (fun bits => bit Z 0%Z 1%Z bits i * derivZ' envI irxns (iso_name c bits)) (all_patterns (nlab lv c))))%Z = 1%Z.
+Proof.
+  intro rk. destruct rk; [exact direction_refuted_inverse_dict|exact direction_refuted_inverse_pos|exact direction_refuted_inverse_unk].
+Qed.
+
 (** non-vacuity of [enrichment_rate_model] / [uniform_stationary_model]: the same reaction with the same
     3-cycle, documented reading, meets every hypothesis (and both models are built) *)
-Example enrichment_nonvacuous :
+Example enrichment_nonvacuous_dict :
   let rms := [(rf_rxn, map Z.of_nat rf_map)] in
   Forall (fun rm =>
             let r := fst rm in
             let bs := subs_of (r_stoich r) in let bp := prods_of (r_stoich r) in
             exists (extra : list N) (mun : list nat),
               r_fn r = FProd /\ Permutation (r_args r) (bs ++ extra) /\ NoDup (map fst (r_stoich r)) /\ NoDup bs /\
-              (forall a, In a extra -> ~ In a bs /\ ~ In a bp /\ nlab rf_lv a = O) /\
+              (forall a, In a extra -> ~ In a bs /\ ~ In a bp /\ nlab rf_lv a = O /\ (ReplDict = ReplPositional -> getN a rf_lv = None)) /\
               (forall c, In c (bs ++ bp) -> O < nlab rf_lv c) /\
               snd rm = map Z.of_nat mun /\
               Permutation mun (seq O (Nat.max (total (labels_per rf_lv bs)) (total (labels_per rf_lv bp)))) /\
               rf_envL (LPlain (r_name r)) = prodR Z 1%Z Z.mul (map (benv Z 0%Z Z.add rf_lv rf_envI) (r_args r))) rms /\
-  (exists irs, collect (map (fun rm => create_iso_rxns true rf_lv (fst rm) (snd rm)) rms) = Ok irs /\ length (concat irs) = 8) /\
+  (exists irs, collect (map (fun rm => create_iso_rxns true ReplDict rf_lv (fst rm) (snd rm)) rms) = Ok irs /\ length (concat irs) = 8) /\
   (exists isos lrs, lin_isotopomers rf_lv = Ok isos /\
                     collect (map (fun rm => lin_rxns DirDocumented isos (fst rm) (snd rm)) rms) = Ok lrs /\ length (concat lrs) = 3) /\
   (forall c, O < nlab rf_lv c -> rf_envL (LPlain c) = benv Z 0%Z Z.add rf_lv rf_envI c) /\
@@ -381,9 +517,9 @@ Proof.
     repeat match goal with |- _ /\ _ => split end.
     + reflexivity.
     + vm_compute. apply Permutation_refl.
-    + vm_compute. repeat constructor; cbn; intuition discriminate.
-    + vm_compute. repeat constructor; cbn; intuition discriminate.
-    + intros a [<-|[]]. vm_compute. intuition discriminate.
+    + vm_compute. repeat constructor; cbn; intuition (try discriminate; try reflexivity).
+    + vm_compute. repeat constructor; cbn; intuition (try discriminate; try reflexivity).
+    + intros a [<-|[]]. vm_compute. intuition (try discriminate; try reflexivity).
     + intros c Hc. vm_compute in Hc. destruct Hc as [<-|[<-|[]]]; vm_compute; lia.
     + reflexivity.
     + vm_compute. apply (Permutation_trans (l' := [1; 0; 2])).
@@ -401,6 +537,124 @@ Proof.
     + destruct (N.eq_dec c 2) as [->|H2]; [|lia].
       destruct j as [|[|[|j]]]; [vm_compute; reflexivity..|lia].
   - reflexivity.
+Qed.
+
+Example enrichment_nonvacuous_pos :
+  let rms := [(rf_rxn, map Z.of_nat rf_map)] in
+  Forall (fun rm =>
+            let r := fst rm in
+            let bs := subs_of (r_stoich r) in let bp := prods_of (r_stoich r) in
+            exists (extra : list N) (mun : list nat),
+              r_fn r = FProd /\ Permutation (r_args r) (bs ++ extra) /\ NoDup (map fst (r_stoich r)) /\ NoDup bs /\
+              (forall a, In a extra -> ~ In a bs /\ ~ In a bp /\ nlab rf_lv a = O /\ (ReplPositional = ReplPositional -> getN a rf_lv = None)) /\
+              (forall c, In c (bs ++ bp) -> O < nlab rf_lv c) /\
+              snd rm = map Z.of_nat mun /\
+              Permutation mun (seq O (Nat.max (total (labels_per rf_lv bs)) (total (labels_per rf_lv bp)))) /\
+              rf_envL (LPlain (r_name r)) = prodR Z 1%Z Z.mul (map (benv Z 0%Z Z.add rf_lv rf_envI) (r_args r))) rms /\
+  (exists irs, collect (map (fun rm => create_iso_rxns true ReplPositional rf_lv (fst rm) (snd rm)) rms) = Ok irs /\ length (concat irs) = 8) /\
+  (exists isos lrs, lin_isotopomers rf_lv = Ok isos /\
+                    collect (map (fun rm => lin_rxns DirDocumented isos (fst rm) (snd rm)) rms) = Ok lrs /\ length (concat lrs) = 3) /\
+  (forall c, O < nlab rf_lv c -> rf_envL (LPlain c) = benv Z 0%Z Z.add rf_lv rf_envI c) /\
+  (forall c j, j < nlab rf_lv c ->
+     (rf_envL (LPos c (Z.of_nat j)) * rf_envL (LPlain c))%Z = marg Z 0%Z 1%Z Z.add Z.mul rf_envI rf_lv c j) /\
+  rf_envL LExt = 1%Z.
+Proof.
+  cbv zeta. repeat match goal with |- _ /\ _ => split end.
+  - constructor; [|constructor]. cbv zeta. exists [20%N], rf_map.
+    repeat match goal with |- _ /\ _ => split end.
+    + reflexivity.
+    + vm_compute. apply Permutation_refl.
+    + vm_compute. repeat constructor; cbn; intuition (try discriminate; try reflexivity).
+    + vm_compute. repeat constructor; cbn; intuition (try discriminate; try reflexivity).
+    + intros a [<-|[]]. vm_compute. intuition (try discriminate; try reflexivity).
+    + intros c Hc. vm_compute in Hc. destruct Hc as [<-|[<-|[]]]; vm_compute; lia.
+    + reflexivity.
+    + vm_compute. apply (Permutation_trans (l' := [1; 0; 2])).
+      * apply perm_skip. apply perm_swap.
+      * apply perm_swap.
+    + vm_compute. reflexivity.
+  - eexists. split; [vm_compute; reflexivity|reflexivity].
+  - eexists. eexists. split; [vm_compute; reflexivity|]. split; [vm_compute; reflexivity|reflexivity].
+  - intros c Hc. unfold nlab, getN, rf_lv in Hc. cbn [dict_get] in Hc.
+    destruct (N.eq_dec c 1) as [->|H1]; [vm_compute; reflexivity|].
+    destruct (N.eq_dec c 2) as [->|H2]; [vm_compute; reflexivity|lia].
+  - intros c j Hj. unfold nlab, getN, rf_lv in Hj. cbn [dict_get] in Hj.
+    destruct (N.eq_dec c 1) as [->|H1].
+    + destruct j as [|[|[|j]]]; [vm_compute; reflexivity..|lia].
+    + destruct (N.eq_dec c 2) as [->|H2]; [|lia].
+      destruct j as [|[|[|j]]]; [vm_compute; reflexivity..|lia].
+  - reflexivity.
+Qed.
+
+Example enrichment_nonvacuous_unk :
+  let rms := [(rf_rxn, map Z.of_nat rf_map)] in
+  Forall (fun rm =>
+            let r := fst rm in
+            let bs := subs_of (r_stoich r) in let bp := prods_of (r_stoich r) in
+            exists (extra : list N) (mun : list nat),
+              r_fn r = FProd /\ Permutation (r_args r) (bs ++ extra) /\ NoDup (map fst (r_stoich r)) /\ NoDup bs /\
+              (forall a, In a extra -> ~ In a bs /\ ~ In a bp /\ nlab rf_lv a = O /\ (ReplUnknown = ReplPositional -> getN a rf_lv = None)) /\
+              (forall c, In c (bs ++ bp) -> O < nlab rf_lv c) /\
+              snd rm = map Z.of_nat mun /\
+              Permutation mun (seq O (Nat.max (total (labels_per rf_lv bs)) (total (labels_per rf_lv bp)))) /\
+              rf_envL (LPlain (r_name r)) = prodR Z 1%Z Z.mul (map (benv Z 0%Z Z.add rf_lv rf_envI) (r_args r))) rms /\
+  (exists irs, collect (map (fun rm => create_iso_rxns true ReplUnknown rf_lv (fst rm) (snd rm)) rms) = Ok irs /\ length (concat irs) = 8) /\
+  (exists isos lrs, lin_isotopomers rf_lv = Ok isos /\
+                    collect (map (fun rm => lin_rxns DirDocumented isos (fst rm) (snd rm)) rms) = Ok lrs /\ length (concat lrs) = 3) /\
+  (forall c, O < nlab rf_lv c -> rf_envL (LPlain c) = benv Z 0%Z Z.add rf_lv rf_envI c) /\
+  (forall c j, j < nlab rf_lv c ->
+     (rf_envL (LPos c (Z.of_nat j)) * rf_envL (LPlain c))%Z = marg Z 0%Z 1%Z Z.add Z.mul rf_envI rf_lv c j) /\
+  rf_envL LExt = 1%Z.
+Proof.
+  cbv zeta. repeat match goal with |- _ /\ _ => split end.
+  - constructor; [|constructor]. cbv zeta. exists [20%N], rf_map.
+    repeat match goal with |- _ /\ _ => split end.
+    + reflexivity.
+    + vm_compute. apply Permutation_refl.
+    + vm_compute. repeat constructor; cbn; intuition (try discriminate; try reflexivity).
+    + vm_compute. repeat constructor; cbn; intuition (try discriminate; try reflexivity).
+    + intros a [<-|[]]. vm_compute. intuition (try discriminate; try reflexivity).
+    + intros c Hc. vm_compute in Hc. destruct Hc as [<-|[<-|[]]]; vm_compute; lia.
+    + reflexivity.
+    + vm_compute. apply (Permutation_trans (l' := [1; 0; 2])).
+      * apply perm_skip. apply perm_swap.
+      * apply perm_swap.
+    + vm_compute. reflexivity.
+  - eexists. split; [vm_compute; reflexivity|reflexivity].
+  - eexists. eexists. split; [vm_compute; reflexivity|]. split; [vm_compute; reflexivity|reflexivity].
+  - intros c Hc. unfold nlab, getN, rf_lv in Hc. cbn [dict_get] in Hc.
+    destruct (N.eq_dec c 1) as [->|H1]; [vm_compute; reflexivity|].
+    destruct (N.eq_dec c 2) as [->|H2]; [vm_compute; reflexivity|lia].
+  - intros c j Hj. unfold nlab, getN, rf_lv in Hj. cbn [dict_get] in Hj.
+    destruct (N.eq_dec c 1) as [->|H1].
+    + destruct j as [|[|[|j]]]; [vm_compute; reflexivity..|lia].
+    + destruct (N.eq_dec c 2) as [->|H2]; [|lia].
+      destruct j as [|[|[|j]]]; [vm_compute; reflexivity..|lia].
+  - reflexivity.
+Qed.
+
+Example enrichment_nonvacuous :
+  forall rk : repl_kind,
+  let rms := [(rf_rxn, map Z.of_nat rf_map)] in
+  Forall (fun rm =>
+            let r := fst rm in
+            let bs := subs_of (r_stoich r) in let bp := prods_of (r_stoich r) in
+            exists (extra : list N) (mun : list nat),
+              r_fn r = FProd /\ Permutation (r_args r) (bs ++ extra) /\ NoDup (map fst (r_stoich r)) /\ NoDup bs /\
+              (forall a, In a extra -> ~ In a bs /\ ~ In a bp /\ nlab rf_lv a = O /\ (rk = ReplPositional -> getN a rf_lv = None)) /\
+              (forall c, In c (bs ++ bp) -> O < nlab rf_lv c) /\
+              snd rm = map Z.of_nat mun /\
+              Permutation mun (seq O (Nat.max (total (labels_per rf_lv bs)) (total (labels_per rf_lv bp)))) /\
+              rf_envL (LPlain (r_name r)) = prodR Z 1%Z Z.mul (map (benv Z 0%Z Z.add rf_lv rf_envI) (r_args r))) rms /\
+  (exists irs, collect (map (fun rm => create_iso_rxns true rk rf_lv (fst rm) (snd rm)) rms) = Ok irs /\ length (concat irs) = 8) /\
+  (exists isos lrs, lin_isotopomers rf_lv = Ok isos /\
+                    collect (map (fun rm => lin_rxns DirDocumented isos (fst rm) (snd rm)) rms) = Ok lrs /\ length (concat lrs) = 3) /\
+  (forall c, O < nlab rf_lv c -> rf_envL (LPlain c) = benv Z 0%Z Z.add rf_lv rf_envI c) /\
+  (forall c j, j < nlab rf_lv c ->
+     (rf_envL (LPos c (Z.of_nat j)) * rf_envL (LPlain c))%Z = marg Z 0%Z 1%Z Z.add Z.mul rf_envI rf_lv c j) /\
+  rf_envL LExt = 1%Z.
+Proof.
+  intro rk. destruct rk; [exact enrichment_nonvacuous_dict|exact enrichment_nonvacuous_pos|exact enrichment_nonvacuous_unk].
 Qed.
 
 Print Assumptions no_label_build_linear.
